@@ -231,16 +231,16 @@ fn recv_msgs(recv: &dyn Fn(&mut [u8]) -> std::io::Result<usize>, d: &Dir, rng: &
 
 type Job = Box<dyn FnOnce() + Send + 'static>;
 
-/// What to do with the write half of a split stream once its direction is shut down.  Dropping it while the read
-/// half (a dup of the same socket) is still in use is a defect of its own for `UnixStream` (the descriptor is closed
-/// before it is removed from epoll, the registration survives through the dup and later events are written through
-/// the freed `EventData`; see notes/c1718/splitdrop.rs) and would make every duplex run crash at random, so the
-/// half is kept until the process ends unless MAYV_SPLITDROP=1 asks for the drop.
+/// What to do with a half of a split stream once its direction is done: drop it (default), which closes a dup of a
+/// socket whose other half is still in use.  Before the repair "CoIo deregisters its fd from the selector before
+/// closing it" (finding F15) that left a dangling epoll registration and later events were written through the
+/// freed `EventData` (notes/c1718/repro/src/splitdrop.rs): every duplex run crashed at random.  MAYV_SPLITKEEP=1
+/// keeps the halves until the process ends instead.
 fn park_half<T>(half: T) {
-    if envn("MAYV_SPLITDROP", 0) == 1 {
-        drop(half);
-    } else {
+    if envn("MAYV_SPLITKEEP", 0) == 1 {
         std::mem::forget(half);
+    } else {
+        drop(half);
     }
 }
 
@@ -264,9 +264,22 @@ fn spawn_thread_endpoint(ctx: &Ctx, name: &str, idx: usize, job: Job) -> Box<dyn
     })
 }
 
+extern "C" {
+    fn close(fd: i32) -> i32;
+}
+
 fn main() {
+    // descriptor numbers decide which selector serves a socket (fd % workers): do not let descriptors inherited from
+    // the caller (e.g. the lock file of `flock`) shift them, the run must be a function of (env, seed) only
+    for fd in 3..64 {
+        unsafe { close(fd) };
+    }
     let mut cfg = Config::from_env();
     cfg.poll_io = true;
+    // MAYV_SCHED_FILES=a.rs,b.rs: only hooks in these files are schedule (and stall) points
+    if let Ok(l) = std::env::var("MAYV_SCHED_FILES") {
+        cfg.sched_files = l.split(',').filter(|x| !x.is_empty()).map(|x| &*Box::leak(x.to_string().into_boxed_str())).collect();
+    }
     let sock = envs("MAYV_SOCK", "unixstream");
     let conns = envn("MAYV_CONNS", 1) as usize;
     let maxsize = envn("MAYV_SIZE", 20_000);
